@@ -7,12 +7,18 @@ build: the obligation is reported open instead of being guessed.
 import importlib, os, traceback
 from .common import write_if_changed, ExtractError
 
-EXTRACTORS = ['periodic']
+
+def extractors():
+    """every module of this package that defines `generate(repo) -> {filename: content}` and `FILES`"""
+    here = os.path.dirname(os.path.abspath(__file__))
+    return sorted(fn[:-3] for fn in os.listdir(here)
+                  if fn.endswith('.py') and fn not in ('__init__.py', 'common.py', 'run_all.py', 'pyfn2lean.py'))
+
 
 
 def run(repo, gendir, only=None):
     problems = []
-    for name in EXTRACTORS:
+    for name in extractors():
         if only and name not in only:
             continue
         mod = importlib.import_module('extract.' + name)
